@@ -278,6 +278,8 @@ def materialise(world, scratch):
         k = n["kind"]
         if k == "dir":
             os.mkdir(p)
+        elif k == "file" and n.get("linkto"):
+            os.link(paths[n["linkto"]], p)
         elif k == "file":
             if n.get("zip") is not None:
                 write_zip(p, n["zip"])
@@ -371,7 +373,8 @@ def materialise(world, scratch):
     for n in reversed(nodes):
         if n.get("mtime") is not None:
             p = paths[n["id"]]
-            os.utime(p, (n["mtime"], n["mtime"]), follow_symlinks=False)
+            ns = n["mtime"] * 10 ** 9 + n.get("mtime_ms", 0) * 10 ** 6
+            os.utime(p, ns=(ns, ns), follow_symlinks=False)
     for n in nodes:  # parents' mtimes are disturbed by children creation; re-apply top-down is not needed: done after all creation
         pass
     return World(base, paths, home)
@@ -387,7 +390,9 @@ def snapshot(w, world, digests=False):
         st = os.lstat(p)
         rec = {"id": n["id"], "path": p, "ino": str(st.st_ino), "dev": str(st.st_dev), "nlink": str(st.st_nlink),
                "size": str(st.st_size), "blocks": str(st.st_blocks), "mode": st.st_mode, "perm": st.st_mode & 0o7777,
-               "uid": str(st.st_uid), "gid": str(st.st_gid), "mtime": int(st.st_mtime)}
+               "uid": str(st.st_uid), "gid": str(st.st_gid), "mtime": int(st.st_mtime),
+               "sizen": st.st_size if st.st_size < 2 ** 31 else -1, "uidn": st.st_uid, "gidn": st.st_gid,
+               "nlinkn": st.st_nlink, "blocksn": st.st_blocks if st.st_blocks < 2 ** 31 else -1}
         try:
             rec["user"] = pwd.getpwuid(st.st_uid).pw_name
         except KeyError:
